@@ -10,11 +10,16 @@ from .sxlib import DAY0, H, S1, S2, S3, S5
 PROPERTY = "C09"
 
 
-def with_x(base: Spec, res: str, pinned: bool = False) -> Spec:
+def with_x(base: Spec, res: str, pinned: bool = False, alap: bool = False) -> Spec:
     s = copy.deepcopy(base)
-    s.tasks.append(Task("zz_added", effort=P("ex"), alloc=[res], prio=1, start=P("sx") if pinned else None))
-    if pinned:
+    if alap:
+        # the added task is scheduled backward from a fixed end (symbolic hour offset)
+        s.tasks.append(Task("zz_added", effort=P("ex"), alloc=[res], prio=1, scheduling="alap", end=P("sx")))
         s.time_unit = H
+    else:
+        s.tasks.append(Task("zz_added", effort=P("ex"), alloc=[res], prio=1, start=P("sx") if pinned else None))
+        if pinned:
+            s.time_unit = H
     return s
 
 
@@ -33,14 +38,14 @@ def base_prio(n: int) -> Spec:
 def cells(tier: str) -> dict:
     out = {}
 
-    def add(name, base_f, res, emax=3 * H, pinned=False):
+    def add(name, base_f, res, emax=3 * H, pinned=False, alap=False):
         def f():
             b = base_f()
             b.length = "4w"
-            bx = with_x(b, res, pinned)
+            bx = with_x(b, res, pinned, alap)
             rg = {}
             for n in bx.params():
-                rg[n] = (60, emax) if n.startswith("e") else ((2, 1000) if n.startswith("p") else (0, 80))
+                rg[n] = (60, emax) if n.startswith("e") else ((2, 1000) if n.startswith("p") else ((10, 60) if alap else (0, 80)))
             tids = [b.full_id(t) for t in b.tasks]
 
             def rel(specs, vals, obs, infos):
@@ -50,6 +55,8 @@ def cells(tier: str) -> dict:
 
     add("S1x2+X", lambda: base_prio(2), "r")
     add("S1x2+X[pinned]", lambda: base_prio(2), "r", pinned=True)
+    add("S1x2+X[alap-end]", lambda: base_prio(2), "r", alap=True)
+    add("S2x2+X[alap-end,narrow]", lambda: S2(2), "r", emax=H, alap=True)
     add("S2x2+X", lambda: S2(2), "r")
     add("S3team+X[r1]", S3, "r1")
     add("S3team+X[r2]", S3, "r2")
